@@ -148,6 +148,14 @@ def make_custom(rng, loader, tier, force=None):
     n_max = 60 if tier == 'quick' else 300
     init_ctr = True if loader == 'software-projects' else rng.random() < 0.5
     init_ctr = force.get('init_ctr', init_ctr)
+    # boundary-value DEC A delay loops (A = 0 on entry means 256 iterations), in both forms: one inside the loader while the pilot
+    # tone is playing (its length decides which edge is sampled next), one after the last block (its length shows in T)
+    def bd():
+        return (rng.choice(('jp', 'jr')), rng.choice((0, 0, 0, 1, 2, 255, 255, rng.randrange(256))), rng.random() < 0.5)
+    wait_delay = bd() if rng.random() < 0.5 else None
+    post_delay = bd() if rng.random() < 0.6 else None
+    wait_delay = force.get('wait_delay', wait_delay)
+    post_delay = force.get('post_delay', post_delay)
     fill = force.get('fill', fill)
     nblocks = force.get('nblocks', nblocks)
     polarity = force.get('polarity', polarity)
@@ -159,7 +167,7 @@ def make_custom(rng, loader, tier, force=None):
         n = rng.choice((1, 2, 17, n_max // 2, n_max, rng.randrange(1, n_max + 1)))
         blocks.append({'dest': dest, 'data': rand_bytes(rng, n), 'flag': rng.choice((0xFF, 0xFF, 0x00, 0x5A)), 'npilot': rng.choice((900, 1200, 1601))})
         dest += n + rng.choice((0, 1, 256))
-    prog = g.build_program(loader, org, rng, blocks, fill=fill, delay_kind=delay_kind, swap=swap, ending=ending, init_ctr=init_ctr)
+    prog = g.build_program(loader, org, rng, blocks, fill=fill, delay_kind=delay_kind, swap=swap, ending=ending, init_ctr=init_ctr, wait_delay=wait_delay, post_delay=post_delay)
     prefix_pause = rng.choice((1000, 300, 300, 100))
     block_pauses = [rng.choice((0, 0, 100, 1000)) for _ in blocks]
     jitter = rng.choice((0, 0, 0, -3, 5))
@@ -178,7 +186,8 @@ def make_custom(rng, loader, tier, force=None):
             'polarity': polarity, 'first_edge': first_edge, 'start': prog['fin'] if use_start else None, 'regions': regions, 'extra': extra,
             'timeout': (g.tzx_duration(tzx) + abs(first_edge)) // 3500000 + 5, 'desc': {'loader': loader, 'fill': fill, 'delay': delay_kind, 'blocks': [len(b['data']) for b in blocks], 'container': container,
                                     'polarity': polarity, 'first_edge': first_edge, 'swap': swap, 'init_ctr': init_ctr, 'ending': ending, 'start': use_start, 'org': org,
-                                    'prefix_pause': prefix_pause, 'block_pauses': block_pauses, 'jitter': jitter, 'false_starts': splits}}
+                                    'prefix_pause': prefix_pause, 'block_pauses': block_pauses, 'jitter': jitter, 'false_starts': splits,
+                                    'wait_delay': wait_delay, 'post_delay': post_delay}}
 
 def make_bin2tap(rng, tier, force=None):
     force = force or {}
@@ -416,7 +425,9 @@ def matrix(tape, rng, tier, asan=False):
                     g1.append(C(acc, d, p, 0, 1, 0))
     g1 += [C('list', 3, 1, 0, 1, 0), C('list', 3, 0, 0, 1, 0)]
     if not asan:
-        py = [C('none', 0, 1, 1, 1, 0), C(tape['named'], 3, 1, 1, 1, 0), C('auto', 3, 0, 1, 1, 0)]
+        py = [C('none', 0, 1, 1, 1, 0), C(tape['named'], 3, 1, 1, 1, 0), C('auto', 3, 0, 1, 1, 0), C('auto', rng.choice((1, 2)), rng.randrange(2), 1, 1, 0),
+              C('auto', rng.choice((1, 2)), rng.randrange(2), 1, 1, 0)]
+        py[4]['dec_a'] = 3 - py[3]['dec_a']
         if not q:
             py += [C('none', 3, 0, 1, 1, 0), C('auto', 0, 1, 1, 1, 0), C('list', 3, 1, 1, 1, 0)]
         for _ in range(1 if q else 8):
@@ -425,7 +436,7 @@ def matrix(tape, rng, tier, asan=False):
                 c['dec_a'] = 3
             py.append(c)
         if tape['kind'] == 'bin2tap':
-            py = py[:2] + py[-1:]             # with fast loading nothing but BASIC is simulated: the Python runs are alike
+            py = py[:2] + py[3:4]             # with fast loading nothing but BASIC is simulated: the Python runs are alike
         g1 += py
     groups.append((('fl1', 'cmio0'), g1))
     # G2: fast-load=0, cmio=0
@@ -506,6 +517,16 @@ def check_tape(shard, hooks, tape, rng, case_key, asan=False, only_groups=None):
     shard.hist('polarity', tape['polarity'])
     shard.hist('first_edge', tape['first_edge'])
     shard.hist('start_given', tape['start'] is not None)
+    if tape['kind'] == 'custom':
+        for where in ('wait_delay', 'post_delay'):
+            bdl = tape['desc'].get(where)
+            if bdl:
+                bit = 2 if bdl[0] == 'jp' else 1
+                pyruns = sum(1 for lst in results.values() for c, r in lst if c['python'] and c['cmio'] == 0 and c['dec_a'] & bit and r.get('regs') is not None)
+                key = '%s/%s/A=%s' % (where.split('_')[0], bdl[0], bdl[1] if bdl[1] in (0, 1, 2, 255) else 'other')
+                shard.hist('boundary_dec_a_delay(tapes)', key)
+                if pyruns:
+                    shard.hist('boundary_dec_a_delay(python runs with that form accelerated)', key, pyruns)
     hits = tape.get('hits')
     exercised = bool(hits and all(hits['tsl'].get(a, 0) > 0 for a in tape['accs']))
     if exercised:
@@ -603,15 +624,35 @@ def loader_order(seed):
     k = (seed * 7) % len(names)
     return names[k:] + names[:k]
 
-def witness(shard, hooks, k):
-    """Deterministic witnesses of the recorded mechanisms (one each for shards 0..3, before anything else)."""
+def find_witness_tape(hooks, name, loader, force, ca, cb, tries=16):
+    """The mechanisms below depend on where the CPU happens to be when a block begins or a counter overflows, which moves with
+    every change of the generator: look (deterministically, C simulator only) for the first tape on which the two probe
+    configurations differ."""
     import random
+    tape = rng = None
+    for t in range(tries):
+        rng = random.Random('C13/witness/%s/%d' % (name, t))
+        tape = make_custom(rng, loader, 'quick', force)
+        if 'error' in tape:
+            continue
+        harness.write_file('tape.' + tape['ext'], tape['tape'])
+        ra, rb = run_cfg(hooks, tape, ca, 'z80'), run_cfg(hooks, tape, cb, 'z80')
+        if ra.get('watchdog') or rb.get('watchdog'):
+            continue
+        if (ra['loaded'] or rb['loaded']) and state_diff(ra, rb):
+            break
+    return tape, rng
+
+def witness(shard, hooks, k):
+    """Deterministic witnesses of the recorded mechanisms (one each for shards 0..4, before anything else)."""
+    import random
+    C = lambda acc, pause: {'acc': acc, 'dec_a': 0, 'pause': pause, 'python': 0, 'fast_load': 1, 'cmio': 0}
     if k == 0:
         # alkatraz-09 loop with NOP-filled wildcard bytes: a counter overflow does not end the search for an edge properly,
         # the loader drops into its wait loop, and the turbo block begins while the loader is not sampling
-        rng = random.Random('C13/witness/pause')
-        tape = make_custom(rng, 'alkatraz-09', 'quick', {'fill': 'nop', 'nblocks': 1, 'polarity': 0, 'first_edge': 0, 'use_start': True})
-        if 'error' not in tape:
+        tape, rng = find_witness_tape(hooks, 'pause', 'alkatraz-09', {'fill': 'nop', 'nblocks': 1, 'polarity': 0, 'first_edge': 0, 'use_start': True, 'splits': [None],
+                                                                       'wait_delay': None, 'post_delay': None}, C('none', 1), C('none', 0))
+        if tape and 'error' not in tape:
             check_tape(shard, hooks, tape, rng, 'w0', asan=True, only_groups=[('fl1', 'cmio0')])
     elif k == 1:
         # plain bin2tap tape without --start, fast-load 0 vs 1
@@ -626,12 +667,12 @@ def witness(shard, hooks, k):
         if 'error' not in tape:
             check_tape(shard, hooks, tape, rng, 'w2', only_groups=[('fl1', 'cmio0')])
     elif k == 3:
-        # alkatraz loop with NOP-filled wildcard bytes, two blocks: accelerated vs not
-        rng = random.Random('C13/witness/retz')
-        tape = make_custom(rng, 'alkatraz', 'quick', {'fill': 'nop', 'nblocks': 2, 'polarity': 0, 'first_edge': 0, 'use_start': True})
-        if 'error' not in tape:
+        # alkatraz loop with NOP-filled wildcard bytes and a false start (silence while the tape is playing, so that the counter
+        # overflows where the accelerator is active): accelerated vs not
+        tape, rng = find_witness_tape(hooks, 'retz', 'alkatraz', {'fill': 'nop', 'nblocks': 1, 'polarity': 0, 'first_edge': 0, 'use_start': True, 'splits': [(200, 60)],
+                                                                   'wait_delay': None, 'post_delay': None}, C('none', 1), C('auto', 1))
+        if tape and 'error' not in tape:
             check_tape(shard, hooks, tape, rng, 'w3', asan=True, only_groups=[('fl1', 'cmio0')])
-
     elif k == 4:
         # software-projects loop (samples BEFORE it counts down) entered with a counter of 0 after a time-out
         rng = random.Random('C13/witness/deczero/15')
@@ -687,9 +728,14 @@ def run(shard, spec):
             if n < 5:
                 witness(shard, hooks, n)
             # mandatory part (not subject to the soft budget): every loader shape once, shared out over the shards, and one bin2tap tape
-            for nm in names[n::of]:
-                # (wildcard bytes get the working fill here, so that every accelerator is compared exactly at least once)
-                one_tape(shard, hooks, 'custom', nm, (n, 'm', nm), asan, sample=case == 0, force={'fill': 'ret'})
+            for j, nm in enumerate(names[n::of]):
+                # (wildcard bytes get the working fill here, so that every accelerator is compared exactly at least once; the
+                # boundary-value delay loops rotate through form x {0, 1, 2, 255} x position so that every run has them all)
+                k = n + j * of
+                vals = (0, 255, 1, 2)
+                force = {'fill': 'ret', 'post_delay': (('jp', 'jr')[k % 2], vals[(k // 2) % 4], k % 3 == 0),
+                         'wait_delay': (('jr', 'jp')[k % 2], vals[(k // 4) % 4], k % 3 == 1) if k % 4 < 2 else None}
+                one_tape(shard, hooks, 'custom', nm, (n, 'm', nm), asan, sample=case == 0, force=force)
                 case += 1
             one_tape(shard, hooks, 'bin2tap', None, (n, 'm', 'bin2tap'), asan, sample=True)
         # random tapes until the budget is used
@@ -722,6 +768,10 @@ def finalize(agg, tier):
     need = 45 if tier == 'quick' else 50
     if exercised < need:
         probs.append('only %d loader shapes were both loaded and shown (accelerator=list) to hit their own accelerator (< %d)' % (exercised, need))
+    bd = h.get('boundary_dec_a_delay(python runs with that form accelerated)', {})
+    for key in ('post/jp/A=0', 'post/jr/A=0', 'wait/jp/A=0', 'wait/jr/A=0', 'post/jp/A=255', 'post/jr/A=255'):
+        if not bd.get(key):
+            probs.append('no Python-simulator run accelerated a DEC A delay loop of kind %s' % key)
     da = h.get('dec_a_hits(list)', {})
     if not da.get('jr') or not da.get('jp'):
         probs.append('the DEC A accelerator was not exercised in both forms (jr=%s jp=%s)' % (da.get('jr'), da.get('jp')))
